@@ -118,7 +118,22 @@ func shortPkg(path string) string {
 }
 
 // importPath resolves an import alias / package name as used in the source files of package pkgPath.
+var importPathCache = map[string]string{}
+
 func (p *Program) importPath(pkgPath, name string) (string, bool) {
+	ck := pkgPath + "\x00" + name
+	if r, ok := importPathCache[ck]; ok {
+		return r, r != ""
+	}
+	r, ok := p.importPathSlow(pkgPath, name)
+	if !ok {
+		r = ""
+	}
+	importPathCache[ck] = r
+	return r, ok
+}
+
+func (p *Program) importPathSlow(pkgPath, name string) (string, bool) {
 	var res string
 	found := false
 	packages.Visit(p.Pkgs, nil, func(pk *packages.Package) {
